@@ -234,7 +234,7 @@ fn engine_crash_search(seed: u64, thorough: bool, failures: &mut Vec<serde_json:
             let mut dry = Run::new();
             if dry.run(&h) && !dry.tracker.desynced && dry.tracker.at_boundary() {
                 if let Some(top) = dry.tracker.height() {
-                    if top >= 3 { let back = 1 + rng.below(3.min(top)); h.push(SOp::Reorg(top - back)); sites.push(h.len() - 1); }
+                    if top >= 3 { let back = 2 + rng.below(3.min(top - 1)); h.push(SOp::Reorg(top - back)); sites.push(h.len() - 1); }
                 }
             }
         }
@@ -244,12 +244,21 @@ fn engine_crash_search(seed: u64, thorough: bool, failures: &mut Vec<serde_json:
             if !dry.run(&h[..site]) || dry.tracker.desynced { continue; }
             vh::arm_failpoint(None);
             let before = vh::writes();
+            let dry_height = dry.tracker.height();
             let _ = dry.step(&h[site]);
             let total = vh::writes().saturating_sub(before);
             drop(dry);
             if total == 0 { continue; }
             let mut ks: Vec<u64> = vec![0, 1, 2, 3, total / 2, total.saturating_sub(3), total.saturating_sub(2), total.saturating_sub(1)];
             for _ in 0..(if thorough { 10 } else { 4 }) { ks.push(rng.below(total)); }
+            // a reorg ends with the block-keyed tables' delete loops (one delete per orphaned block and
+            // table) and the closing commit: every crash point of that tail, so that a crash strictly
+            // inside one table's delete loop is always among them
+            if let SOp::Reorg(t) = &h[site] {
+                let depth = dry_height.map(|hh| hh.saturating_sub(*t)).unwrap_or(3);
+                let tail = (3 * depth + 14).min(total);
+                for k in (total - tail)..total { ks.push(k); }
+            }
             ks.sort(); ks.dedup();
             for k in ks {
                 if k >= total { continue; }
